@@ -47,7 +47,10 @@ pub fn check(cx: &Cx, rep: &mut Report) {
                 if *actor != af.task || !(*what == "ctx_stop" || *what == "ctx_restart") {
                     continue;
                 }
-                let kinds = kinds_at(cx, af.tag, e.stamp);
+                // strong handles that exist over the whole call (from its marker to its log entry)
+                let k0 = kinds_at(cx, af.tag, ix.effect_begin(e.stamp));
+                let mut kinds = kinds_at(cx, af.tag, e.stamp);
+                kinds.retain(|k, _| k0.contains_key(k));
                 if kinds.is_empty() {
                     continue;
                 }
